@@ -320,6 +320,9 @@ type DestScript struct {
 	GateOpen     bool
 	GateTeardown bool
 	Faults       bool
+	// LateOpen names the Open gate "~late:<name>.open": it sorts after every other alternative, so by default the
+	// destination stays in Open until nothing else can run (exploration order only; the space is unchanged).
+	LateOpen bool
 	// Reject, when non-nil, FORCES the answer of every ack gate: exactly the records listed here ("<src>:<idx>" for an
 	// unsplit record, "<src>:<idx>:<k>/<n>" for piece k of n) are rejected, all others confirmed (input enumeration
 	// rather than schedule enumeration, used by C08).
@@ -345,7 +348,11 @@ func (d *Dest) Open(ctx context.Context, _ pconnector.DestinationOpenRequest) (p
 		if d.S.Faults {
 			menu = append(menu, "err")
 		}
-		if a := d.W.Gate(ctx, d.S.Name+".open", menu...); a != "ok" {
+		gate := d.S.Name + ".open"
+		if d.S.LateOpen {
+			gate = "~late:" + gate
+		}
+		if a := d.W.Gate(ctx, gate, menu...); a != "ok" {
 			d.W.Log(d.S.Name, "openfail", -1, a)
 			return pconnector.DestinationOpenResponse{}, cerrors.Errorf("%s: open failed (%s)", d.S.Name, a)
 		}
